@@ -49,6 +49,15 @@ def _all():
         yield {"fam": "three", "L": L, "lims": LIMS[1], "xy": ("v", "u"), "vals": {}}  # w unassigned
         yield {"fam": "three", "L": L, "lims": LIMS[1], "xy": ("u", "w"), "vals": {"v": 1, "z": 3}}
         yield {"fam": "three", "L": L, "lims": LIMS[1], "xy": ("u", "v"), "vals": {"w": 0, "u": 1}}  # value for a plotted variable
+    # constraints over fixed variables only: they decide emptiness through the substituted value, not through their raw constant
+    for fixed in ([{"w": -1}, -1], [{"w": 1}, 2], [{"w": 1}, -1], [{"w": -2}, 1], [{"w": 1, "z": -1}, 1]):
+        for w in (-2, 0, 1, 3):
+            for base in ([[{"u": 1, "v": 2, "w": 1}, 6], [{"u": -3, "v": 1}, 2]], [[{"u": 1, "v": 1}, 1]]):
+                vals = {"w": w}
+                if "z" in fixed[0]:
+                    vals["z"] = 1
+                yield {"fam": "three", "L": base + [fixed], "lims": LIMS[0], "xy": ("u", "v"), "vals": vals}
+                yield {"fam": "three", "L": [fixed] + base, "lims": LIMS[1], "xy": ("v", "u"), "vals": vals}
     for w, z in itertools.product((-2, 0, 1), repeat=2):
         yield {"fam": "four", "L": [[{"u": 1, "v": 1, "w": 1, "z": -1}, 1], [{"u": -1, "z": 1}, 1], [{"v": -2, "w": 1}, 2]], "lims": LIMS[0],
                "xy": ("u", "v"), "vals": {"w": w, "z": z}}
